@@ -15,6 +15,7 @@ type OptDecl struct {
 }
 
 type Decl struct {
+	Name string // "std", "alt", "num": how a replayable case names it
 	Opts []OptDecl
 	Args []string
 }
@@ -61,6 +62,7 @@ func (d *Decl) ContainerName(i int) string {
 // Std is the declared program of DESIGN.md 4.1.
 func Std() *Decl {
 	return &Decl{
+		Name: "std",
 		Opts: []OptDecl{
 			{Key: "a", Names: []string{"-a", "--aa"}, Flag: true},
 			{Key: "b", Names: []string{"-b", "--bb"}, Flag: true},
@@ -74,6 +76,7 @@ func Std() *Decl {
 // with two short names, a valued option with three names.
 func Alt() *Decl {
 	return &Decl{
+		Name: "alt",
 		Opts: []OptDecl{
 			{Key: "a", Names: []string{"--aa", "-a"}, Flag: true},
 			{Key: "n", Names: []string{"-n", "-m"}, Flag: true},
@@ -83,10 +86,30 @@ func Alt() *Decl {
 	}
 }
 
+// Num is a third declared program: a flag whose short name is a digit (legal; reachable through OPTIONS and its
+// long name, the spec grammar has no digit short options), and flags i, n, f whose folded spelling -inf / -nf reads
+// like a number, next to a valued option.
+func Num() *Decl {
+	return &Decl{
+		Name: "num",
+		Opts: []OptDecl{
+			{Key: "4", Names: []string{"-4", "--ipv4"}, Flag: true},
+			{Key: "i", Names: []string{"-i"}, Flag: true},
+			{Key: "n", Names: []string{"-n", "--nan"}, Flag: true},
+			{Key: "f", Names: []string{"-f"}, Flag: true},
+			{Key: "p", Names: []string{"-p", "--port"}, Flag: false},
+		},
+		Args: []string{"X"},
+	}
+}
+
 // DeclByName returns the declared program of a replayable case.
 func DeclByName(n string) *Decl {
 	if n == "alt" {
 		return Alt()
+	}
+	if n == "num" {
+		return Num()
 	}
 	return Std()
 }
